@@ -2,6 +2,9 @@ package ceremony
 
 import (
 	"github.com/idena-network/idena-go/common"
+	"github.com/idena-network/idena-go/core/appstate"
+	"github.com/idena-network/idena-go/database"
+	"github.com/idena-network/idena-go/log"
 	"github.com/idena-network/idena-go/core/state"
 	"github.com/idena-network/idena-go/secstore"
 )
@@ -29,4 +32,42 @@ func (vc *ValidationCeremony) VerifShardFlips(shard common.ShardId) int {
 // VerifDetermineNewIdentityState exposes the status decision table.
 func VerifDetermineNewIdentityState(identity state.Identity, shortScore, longScore, totalScore float32, totalQualifiedFlips uint32, missed, noQualShort, nonQualLong, candidateToNewbieFixEnabled, enableUpgrade10 bool, shortQualifiedFlipsCount uint32, enableUpgrade12 bool) state.IdentityState {
 	return determineNewIdentityState(identity, shortScore, longScore, totalScore, totalQualifiedFlips, missed, noQualShort, nonQualLong, candidateToNewbieFixEnabled, enableUpgrade10, shortQualifiedFlipsCount, enableUpgrade12)
+}
+
+// ---- C16: lottery driver
+
+// VerifNewLottery builds a ceremony object that holds exactly what the lottery reads: the
+// state (shards, identities), the epoch database with the lottery identities and seed.
+func VerifNewLottery(appState *appstate.AppState, edb *database.EpochDb) *ValidationCeremony {
+	return &ValidationCeremony{appState: appState, epochDb: edb, lottery: &lottery{}, log: log.New()}
+}
+
+type VerifShard struct {
+	Candidates          []common.Address
+	PubKeys             [][]byte
+	Flips               [][]byte
+	FlipAuthor          map[string]common.Address
+	Short, Long         [][]int
+	CandidatesPerAuthor map[int][]int
+	AuthorsPerCandidate map[int][]int
+}
+
+func (vc *ValidationCeremony) VerifShards() map[common.ShardId]*VerifShard {
+	out := map[common.ShardId]*VerifShard{}
+	for id, s := range vc.shardCandidates {
+		v := &VerifShard{Flips: s.flips, FlipAuthor: s.flipAuthorMap, Short: s.shortFlipsPerCandidate, Long: s.longFlipsPerCandidate}
+		for _, c := range s.candidates {
+			v.Candidates = append(v.Candidates, c.Address)
+			v.PubKeys = append(v.PubKeys, c.PubKey)
+		}
+		if l := vc.shardLotteries[id]; l != nil {
+			v.CandidatesPerAuthor, v.AuthorsPerCandidate = l.candidatesPerAuthor, l.authorsPerCandidate
+		}
+		out[id] = v
+	}
+	return out
+}
+
+func (vc *ValidationCeremony) VerifPackageIndex(addr, author common.Address) int {
+	return vc.getPrivateKeyPackageIndex(addr, author)
 }
